@@ -272,7 +272,12 @@ func main() {
 		ast.Inspect(f, func(ast.Node) bool { return false })
 		f.Imports = append(f.Imports, &ast.ImportSpec{Path: &ast.BasicLit{Kind: token.STRING, Value: fmt.Sprintf("%q", hookImport)}})
 		imp := &ast.GenDecl{Tok: token.IMPORT, Specs: []ast.Spec{&ast.ImportSpec{Path: &ast.BasicLit{Kind: token.STRING, Value: fmt.Sprintf("%q", hookImport)}}}}
-		f.Decls = append([]ast.Decl{imp}, f.Decls...)
+		// keep the import used in files that got no hook
+		keep := &ast.GenDecl{Tok: token.VAR, Specs: []ast.Spec{&ast.ValueSpec{
+			Names:  []*ast.Ident{ast.NewIdent("_")},
+			Values: []ast.Expr{&ast.SelectorExpr{X: ast.NewIdent("hook"), Sel: ast.NewIdent("At")}},
+		}}}
+		f.Decls = append(append([]ast.Decl{imp}, f.Decls...), keep)
 		var buf bytes.Buffer
 		if err := format.Node(&buf, fset, f); err != nil {
 			fmt.Fprintln(os.Stderr, err)
